@@ -26,6 +26,9 @@ pub struct SupplyTrace {
     /// label key's id written into its "keyid" member
     #[serde(default)]
     pub caller_json_alias: Vec<usize>,
+    /// the name requested for the returned summary (None = the entry point's default, "")
+    #[serde(default)]
+    pub step_name: Option<String>,
 }
 
 pub struct SupplyOutcome {
@@ -95,6 +98,7 @@ pub fn run_supply(t: &SupplyTrace, scratch: &Scratch) -> SupplyOutcome {
             cwd: &work,
             clock: &t.clock,
             hash_seed: *hs,
+            step_name: t.step_name.clone(),
         };
         match exec::verify(&call) {
             CallResult::NoLayout(e) => {
